@@ -347,7 +347,10 @@ class Scenario:
                 consts = {"writers": [wr.name for wr in writers], "servers": sorted(g.servers), "order": sorted(g.servers),
                           "shnums": self.shnums, "K": sp["k"], "N": sp["n"], "op": sp["op"], "fmt": sp["fmt"], "single": W == 1,
                           "init": {name: {sh: 0 for sh in self.shnums} for name in sorted(g.servers)}}
-                return {"consts": consts, "events": [{"ev": "SetupFailed", "detail": "%s: %s" % (type(ex).__name__, str(ex)[:300])}],
+                # (on a grid with read-only servers a server policy that refuses to create new mutable shares there - loudly -
+                # may make the fault-free creation of the file fail: the scenario does not apply, nothing is judged)
+                return {"consts": consts, "events": [{"ev": "SetupFailed", "detail": "%s: %s" % (type(ex).__name__, str(ex)[:300]),
+                                                      "tolerated": bool(sp.get("readonly"))}],
                         "meta": {"spec": {k: ([] if v is None else v) for k, v in sp.items()}, "choices": [], "seqs": {}}}
             g.drain()
             self.si = node0.get_storage_index()
